@@ -15,6 +15,8 @@ func AllMonitors() []Monitor {
 		&MonC03{},
 		&MonC04{},
 		&MonC05{},
+		&MonC06{},
+		&MonC07{},
 	}
 }
 
@@ -24,6 +26,8 @@ func init() {
 	Plans["C03"] = planC03
 	Plans["C04"] = planC04
 	Plans["C05"] = planC05
+	Plans["C06"] = planC06
+	Plans["C07"] = planC07
 }
 
 func (w *World) setupCommon(hostedChance int) {
@@ -129,4 +133,28 @@ func ensureTeardownOp(w *World) {
 	case 2:
 		sc.UserOps = append(sc.UserOps, UserOp{Label: "delete --cascade=orphan " + name, Do: func(w *World) { _ = w.TP("user", w.Mgmt).Delete(key, "Orphan") }})
 	}
+}
+
+func planC06(w *World, spec RunSpec) {
+	s := w.Scn
+	w.setupCommon(4)
+	w.drawFaultMix("err-before", "lost-response", "crash", "compaction", "duplicate")
+	w.Cfg.Faults["drift"] = true
+	w.Cfg.Ndist = 80 + s.Intn(400, "ndist")
+	w.Scenario = GenOS(w, OSProfile{MaxSets: 3, Delegation: true, Lifecycle: true, LateCreate: true, NeverReady: s.Bool("never-ready")})
+	w.StartProcesses()
+	w.Disturb(w.Cfg.Ndist)
+	w.finish()
+}
+
+func planC07(w *World, spec RunSpec) {
+	s := w.Scn
+	w.setupCommon(6)
+	w.Cfg.Granular = s.Chance(2, 3, "granular")
+	w.drawFaultMix("err-before", "lost-response", "crash", "compaction", "duplicate")
+	w.Cfg.Ndist = 100 + s.Intn(500, "ndist")
+	w.Scenario = GenOD(w, ODProfile{MaxEdits: 5, Pause: true, EmptyStart: true, Limits: true, NeverReady: s.Bool("never-ready")})
+	w.StartProcesses()
+	w.Disturb(w.Cfg.Ndist)
+	w.finish()
 }
